@@ -22,7 +22,8 @@ EXPLANATION = (
     "anywhere in the package (a partial pass leaves the cursor mid-way). NOT decided: equality of the yielded "
     "catalog objects across passes for store=False (loader determinism), user-mutated filters.")
 CLAUSES = {'D1': 'writers of the state', 'D2': 'pass-end postcondition', 'D3': 'nullness', 'D4': 'per-pass accumulators',
-           'D5': 'cache hand-over', 'D6': 'cached getter', 'D7': 'mean of gridded counts', 'D8': 'lazy counts', 'D9': 'complete passes'}
+           'D5': 'cache hand-over', 'D6': 'cached getter', 'D7': 'mean of gridded counts', 'D8': 'lazy counts', 'D9': 'complete passes',
+           'D10': 'read-only consumers'}
 TRUSTED = ['CPython ast', 'iterator protocol (StopIteration ends a pass)', 'catalog filters act in place and return the catalog']
 F = 'csep.core.forecasts.CatalogForecast.'
 ROOTS = [F + '__init__', F + '__iter__', F + '__next__', F + 'get_event_counts', F + 'get_expected_rates', F + 'spatial_counts',
@@ -291,6 +292,115 @@ def rule_complete_passes(ck):
     ck.extra['forecast_loops'] = n
 
 
+def _mutators(P, family):
+    """{method name: 'always' | 'in_place'} for the catalog and gridded-data classes: methods that store into self
+    (directly or through another mutator of self), and whether every such store is guarded by the in_place parameter"""
+    out = {}
+    if family == 'catalog':
+        classes = [c for c in P.classes.values() if c.qualname.startswith('csep.core.catalogs.')]
+    else:
+        classes = [c for c in P.classes.values() if c.qualname.startswith('csep.core.forecasts.') and not c.qualname.endswith('CatalogForecast')]
+    changed = True
+    while changed:
+        changed = False
+        for c in classes:
+            for name, m in c.methods.items():
+                if name in ('__init__', '__iter__', '__next__') or m.kind in ('classmethod', 'staticmethod') or name in out:
+                    continue
+                if any(isinstance(d, ast.Attribute) and d.attr == 'setter' or (isinstance(d, ast.Name) and d.id == 'property')
+                       for d in m.node.decorator_list):
+                    continue
+                stores = []
+                for n in all_nodes(m):
+                    tg = n.targets if isinstance(n, ast.Assign) else [n.target] if isinstance(n, (ast.AugAssign, ast.AnnAssign)) else []
+                    for t in tg:
+                        for x in ast.walk(t):
+                            if isinstance(x, ast.Attribute) and isinstance(x.ctx, ast.Store) and isinstance(x.value, ast.Name) and x.value.id == 'self' \
+                                    and not x.attr.startswith('__') and x.attr != 'filters':
+                                # `filters` only records the last statements given; it does not hold events, region or rates
+                                stores.append(n)
+                    if isinstance(n, ast.Call) and isinstance(n.func, ast.Attribute) and isinstance(n.func.value, ast.Name) and n.func.value.id == 'self' \
+                            and out.get(n.func.attr) == 'always':
+                        stores.append(n)
+                if not stores:
+                    continue
+                guarded = 'in_place' in m.params and all(any(isinstance(t, ast.Name) and t.id == 'in_place' and pol for t, pol in guards_of(s_, m.node))
+                                                          for s_ in stores)
+                out[name] = 'in_place' if guarded else 'always'
+                changed = True
+    return out
+
+
+def rule_consumers(ck):
+    """the evaluations read the forecast: they call no state-changing method on, and store nothing into, the catalogs a pass
+    hands them or the cached expected rates (both are the forecast's own objects and are handed out again)"""
+    P = ck.prog
+    ck.clause('D10')
+    mut_cat, mut_grid = _mutators(P, 'catalog'), _mutators(P, 'gridded')
+    ck.note('state-changing methods derived from the catalog classes: %s' % ', '.join('%s(%s)' % kv for kv in sorted(mut_cat.items())))
+    ck.note('state-changing methods derived from the gridded-data classes: %s' % ', '.join('%s(%s)' % kv for kv in sorted(mut_grid.items())))
+    if not {'filter', 'filter_spatial', 'apply_mct'} <= set(mut_cat) or not {'scale', 'scale_to_test_date'} <= set(mut_grid):
+        raise Inconclusive('mutator derivation lost its known members: %s / %s' % (sorted(mut_cat), sorted(mut_grid)))
+    n = 0
+    for f in P.funcs.values():
+        if f.module.name not in ('csep.core.catalog_evaluations', 'csep.utils.stats', 'csep.utils.calc', 'csep.utils.plots'):
+            continue
+        owned = set()
+        for lp in [x for x in all_nodes(f) if isinstance(x, ast.For)]:
+            it = u(lp.iter)
+            if 'forecast' in it and 'forecasts' not in it and '.magnitudes' not in it and 'len(' not in it:
+                for t in ast.walk(lp.target):
+                    if isinstance(t, ast.Name) and not (isinstance(lp.iter, ast.Call) and u(lp.iter.func) == 'enumerate'
+                                                        and isinstance(lp.target, ast.Tuple) and t is lp.target.elts[0]):
+                        owned.add(t.id)
+        owned_grid = set()
+
+        def is_owned(e):
+            """'catalog' | 'gridded' | None"""
+            while isinstance(e, (ast.Attribute, ast.Subscript, ast.Call)):
+                if isinstance(e, ast.Attribute) and e.attr == 'expected_rates' and 'forecast' in u(e.value):
+                    return 'gridded'
+                if isinstance(e, ast.Call):
+                    if isinstance(e.func, ast.Attribute) and e.func.attr == 'get_expected_rates' and 'forecast' in u(e.func.value):
+                        return 'gridded'
+                    return None
+                e = e.value
+            if isinstance(e, ast.Name):
+                return 'catalog' if e.id in owned else 'gridded' if e.id in owned_grid else None
+            return None
+        for a in all_nodes(f):
+            # plain aliases of an owned object (x = catalog, er = forecast.expected_rates, er = forecast.get_expected_rates())
+            if isinstance(a, ast.Assign) and len(a.targets) == 1 and isinstance(a.targets[0], ast.Name):
+                v = a.value
+                if isinstance(v, ast.Name) or (isinstance(v, ast.Attribute) and v.attr == 'expected_rates') or \
+                        (isinstance(v, ast.Call) and isinstance(v.func, ast.Attribute) and v.func.attr == 'get_expected_rates'):
+                    k_ = is_owned(v)
+                    if k_ == 'catalog':
+                        owned.add(a.targets[0].id)
+                    elif k_ == 'gridded':
+                        owned_grid.add(a.targets[0].id)
+        if not owned and 'expected_rates' not in ' '.join(u(s_) for s_ in f.node.body):
+            continue
+        bad = []
+        for x in all_nodes(f):
+            fam = is_owned(x.func.value) if isinstance(x, ast.Call) and isinstance(x.func, ast.Attribute) else None
+            mut = mut_cat if fam == 'catalog' else mut_grid
+            if fam and x.func.attr in mut:
+                how = mut[x.func.attr]
+                ip = kw(x, 'in_place')
+                if how == 'always' or ip is None or const_value(ip) is not False:
+                    bad.append((x, '`%s` changes the object it is called on%s' % (u(x)[:70], '' if how == 'always' else ' (in_place defaults to True)')))
+            tg = x.targets if isinstance(x, ast.Assign) else [x.target] if isinstance(x, (ast.AugAssign,)) else []
+            for t in tg:
+                if isinstance(t, (ast.Attribute, ast.Subscript)) and is_owned(t.value):
+                    bad.append((x, '`%s` stores into an object of the forecast' % u(x)[:70]))
+        n += 1
+        o = ck.ob('C13-D10.readonly', f, 'forecast-owned catalogs and expected rates are only read', f.node)
+        (o.fail('%s: the forecast hands the same object out again (stored catalogs, cached expected rates), so later passes, counts and '
+                'rates differ from the first' % bad[0][1]) if bad else o.ok('owned: %s' % (sorted(owned) or ['forecast.expected_rates'])))
+    ck.extra['consumers_checked'] = n
+
+
 def _loops_between(node, outer):
     out = []
     for p in parents(node):
@@ -320,4 +430,4 @@ def rule_init(ck):
         (o.ok() if ok else o.fail('%s no longer computes the expected rates when they are missing' % q))
 
 
-RULES = [rule_writers, rule_init, rule_next, rule_getters, rule_complete_passes]
+RULES = [rule_writers, rule_init, rule_next, rule_getters, rule_complete_passes, rule_consumers]
